@@ -151,8 +151,12 @@ ODone ==
         /\ UNCHANGED err
      \/ E.res = "outofsync" /\ err' = [err EXCEPT ![E.r] = TRUE]
      \/ /\ E.res = "injected"
-        \* C04: an interrupted sync leaves the stored data as it was
-        /\ db[E.r] = pre[E.r] /\ UNCHANGED err
+        \* C04: an interrupted sync leaves the stored data as it was -- or, when the failure
+        \* hit the working-set rebuild that FOLLOWS the committed sync transaction, the sync
+        \* is complete (everything sent, in order) and only the working set may be stale
+        /\ \/ db[E.r] = pre[E.r]
+           \/ SentExactly(pre[E.r].base + 1, db[E.r].base, ToSync(pre[E.r].ops), own[E.r])
+        /\ UNCHANGED err
   /\ sy' = [sy EXCEPT ![E.r] = Idle]
   /\ UNCHANGED <<db, chain, snap>> /\ Keep
 
